@@ -70,6 +70,9 @@ CTOR = {'Wait': 'wait', 'Start': 'start', 'Cnclld': 'cnclld', 'CnclldMan': 'cncl
         'Fail': 'fail'}
 FINALS = ['Cnclld', 'CnclldMan', 'Fin', 'FinMod', 'Fail']
 NONFINAL = ['Wait', 'Start']
+# what a raising handler says: the text is arbitrary data (it ends up in log calls and in InvocationErrorMessage)
+RAISE_TEXTS = ['verif: handler raises', 'verif: 100% of {budget} used', 'verif: %d items %s %(x)s', 'verif: {0} {1} {2} {',
+               'verif: }{ <&> "quoted" \'single\'', 'verif: 50%']
 _env = {}
 
 
@@ -320,6 +323,8 @@ def _prog_letter(acts):
         return 'L'
     if acts == ['load', 'store', 'ret']:
         return 'U'
+    if acts == ['acq', 'load', 'store', 'rel', 'ret']:
+        return 'R'
     return None
 
 
@@ -332,16 +337,19 @@ def run_idlock(ctx):
     rng = ctx.subrng('lts')
     import itertools
     scheds = []
-    if letter is not None:
-        n_act = len(acts)
-        # all schedules of two threads (every list over {0,1} of the length of both programs)
-        full = list(itertools.product((0, 1), repeat=2 * n_act))
-        if ctx.tier == 'quick':
-            full = [s for i, s in enumerate(full) if i % 4 == ctx.seed % 4]
-        scheds += [(2, list(s)) for s in full]
-        for _ in range(ctx.n(60, 1500)):
-            n = rng.randint(2, 6)
-            scheds.append((n, [rng.randrange(n) for _ in range(rng.randint(0, n * n_act + 4))]))
+    # the forced schedules (and the oracle on them) do not depend on the trace being one the model knows
+    n_act = max(len(acts), 3)
+    # all schedules of two threads (every list over {0,1} of the length of both programs)
+    full = list(itertools.product((0, 1), repeat=2 * min(n_act, 5)))
+    if ctx.tier == 'quick' and letter == 'L':
+        full = [s for i, s in enumerate(full) if i % 4 == ctx.seed % 4]
+    scheds += [(2, list(s)) for s in full]
+    # one caller passes the whole function between any two actions of another one
+    scheds += [(2, [0] * k + [1] * n_act + [0] * n_act) for k in range(n_act + 1)]
+    scheds += [(3, [0] * k + [1] * n_act + [2] * n_act + [0] * n_act) for k in range(n_act + 1)]
+    for _ in range(ctx.n(60, 1500)):
+        n = rng.randint(2, 6)
+        scheds.append((n, [rng.randrange(n) for _ in range(rng.randint(0, n * n_act + 4))]))
     lines = []
     for n, sched in scheds:
         c0, granted, issued, res, counter = rig.forced(n, sched)
@@ -356,7 +364,7 @@ def run_idlock(ctx):
             bad = f'ids not increasing in the order they were issued: {issued} (counter before: {c0})'
         if bad:
             ctx.fail('tx-id:not-unique-increasing', bad, {**case, 'impl_ids': res, 'issued': issued})
-        lines.append(f'lts {c0} {letter} {n} ' + ' '.join(map(str, granted)))
+        lines.append(f"lts {c0} {letter or 'L'} {n} " + ' '.join(map(str, granted)))
         impl = 'issued [' + ' '.join(f'{t}:{v}' for t, v in issued) + '] res [' + ' '.join('-' if r is None else str(r) for r in res) + f'] counter {counter}'
         cases.append((case, impl))
         _case(ctx, {'lts': [n, granted]}, nontrivial=len(set(granted)) > 1,
@@ -645,7 +653,7 @@ class Rig:
             raise
         out = spec['outcome']
         if out == 'raise':
-            raise ValueError('verif: handler raises')
+            raise ValueError(RAISE_TEXTS[spec['id'] % len(RAISE_TEXTS)])
         return self.e.p_ops.ExecuteResult(params.operation_instance.operation_target_handle, self.e.msg_types.InvocationState(out))
 
     # ---- provider side capture
@@ -1755,7 +1763,9 @@ def search(ctx):
     """deeper search, called when the proof or the correspondence broke and run() found no failing input"""
     # id lock: the classic lost update
     rig = IdLockRig()
-    for n, sched in ((2, [0, 1, 0, 1, 0, 1, 0, 1, 0, 1]), (2, [0, 1, 1, 1, 1, 1, 0, 0, 0, 0]), (3, [0, 1, 2] * 6)):
+    n_act = max(len(rig.program()), 3)
+    pauses = [(2, [0] * k + [1] * n_act + [0] * n_act) for k in range(n_act + 1)]     # second caller passes between two actions
+    for n, sched in [(2, [0, 1, 0, 1, 0, 1, 0, 1, 0, 1]), (2, [0, 1, 1, 1, 1, 1, 0, 0, 0, 0]), (3, [0, 1, 2] * 6)] + pauses:
         c0, granted, issued, res, counter = rig.forced(n, sched)
         ids = [r for r in res if isinstance(r, int)]
         if len(set(ids)) != len(ids) or len(ids) != n:
